@@ -17,14 +17,16 @@ REGISTRATION = {
             "the mask of a successful StartForward exposes exactly the visible entries of the abstraction "
             "(mask_exact), CopyPrefix / Remove / Put / sliding-window eviction commute with the abstraction to a "
             "location-free specification, placement only uses free cells, invariants are preserved by every "
-            "operation for all histories. Model = code is checked on thousands of generated histories per run "
+            "operation for all histories (inv_run, mask_exact_all_histories); WrapperCache: a rejected batch is "
+            "unwound to the pre-batch abstraction in every wrapped cache, an accepted one satisfies mask_exact in "
+            "each. Model = code is checked on thousands of generated histories per run "
             "(exposed entries + data per batch token, abstraction and exact cell/row/range layout after every "
             "operation), and the property itself is evaluated on the real cache against a pure-Go shadow "
             "specification (mask through Cache.Get, K and V rows, both layers).",
     "design_ref": "DESIGN.md §5 C06",
     "note": COMMON_NOTE + "Modelled, not verified: int32 position arithmetic as unbounded Int (positions far from "
             "2^31), immediate graph execution (ctx.Compute boundaries), all layers Put on every pass, "
-            "SetCausal/Except and reserve passes, WrapperCache/EncoderCache (thin delegation, read only). "
+            "SetCausal/Except and reserve passes; EncoderCache has an L2 monitor only (no model). "
             "Known defects of the pinned tree are mirrored by the model and excluded by explicit guards in the "
             "_partial theorems: F14 (defrag coalescing), F15/F15b (sliding window after Remove/CopyPrefix), "
             "F23 (defrag before any Put).",
@@ -86,7 +88,8 @@ def run(ctx):
         level="proof",
         rule="seeded random histories (valid runner-like / defrag-aimed fill-punch-refill / wild streams) over "
              "capacity 1-32 cells, 1-4 sequences, batch 1-8, cache padding {1,2,4,32}, batch padding {1,3,8}, "
-             "window {inf,1,2,4,8}, with/without shiftFn, PermutedV, F16 mask; exhaustive op sequences over "
+             "window {inf,1,2,4,8}, with/without shiftFn, PermutedV, F16 mask; real WrapperCache(SWA+causal, both "
+             "orders) histories sized so one wrapped cache rejects (kw-x/kw-l lines); EncoderCache traces; exhaustive op sequences over "
              "<= 5 cells; corpus of minimised findings. Two L1 lines per history: exposed entries + abstraction "
              "(kv-x) and exact layout (kv-l, sub-correspondence C06.layout)",
         explanation="Lean theorems about the cell/row model of kvcache.Causal and its abstraction to a "
